@@ -651,7 +651,7 @@ func (w *worker) run(form string, c *Cond) *outcome {
 
 func (w *worker) runSQL(sql string) *outcome {
 	o := &outcome{needRow: map[int]string{}}
-	stmt, err := planrig.Parse(sql)
+	stmt, err := w.rig.Parse(sql)
 	if err != nil {
 		ev.Fatalf("generated statement does not parse: %s: %v", sql, err)
 	}
